@@ -591,7 +591,6 @@ func sameLoadedValue(a, b ssa.Value) bool {
 	return ok1 && ok2 && la.Op == token.MUL && lb.Op == token.MUL && la.X == lb.X
 }
 
-
 // idempotentArchDefault: the store `p.arch = info` where info is the result of arch.GetInfo("") and the store is only
 // reached when p.arch was nil: an unexported cell, set to a function of runtime.GOARCH, invisible through the API -
 // wherever in the package it is written.
